@@ -426,6 +426,7 @@ def resolve_key(key: str):
     A name bound to a closure-based decorator wrapper (no __wrapped__) denotes the *decorated* function, found in
     the wrapper's closure by its __qualname__; 'module:Qual.name@wrapper' denotes the wrapper itself."""
     import importlib
+    key = key.split("#", 1)[0]        # "module:Qual.name#variant": another contract (concrete parameters) of one function
     want_wrapper = key.endswith("@wrapper")
     if want_wrapper:
         key = key[:-len("@wrapper")]
